@@ -5,7 +5,8 @@ From RipV Require Import Base.Prelude Model.TailLoop Model.Cache Proofs.TailLoop
 
 Definition k_gen : consts :=
   {| k_loops := gen_loops; k_max_keys := gen_cursor_max_keys;
-     k_inflight_events := gen_inflight_events; k_inflight_bytes := gen_inflight_bytes |}.
+     k_inflight_events := gen_inflight_events; k_inflight_bytes := gen_inflight_bytes;
+     k_ckpt_events := gen_ckpt_events; k_ckpt_bytes := gen_ckpt_bytes |}.
 
 Lemma k_gen_wf : consts_wf k_gen.
 Proof. exact gen_tail_loops_wf. Qed.
